@@ -10,6 +10,7 @@ mod dbrun;
 mod gen_types;
 mod rng;
 mod sexp;
+mod valrun;
 #[cfg(agdb_verif)]
 mod walrun;
 
@@ -92,6 +93,15 @@ fn main() {
             write_lines(&format!("{}/oracle.txt", out), &o.oracle);
             o.stats.insert("snapshots".into(), o.snapshots);
             write_stats(&format!("{}/stats.json", out), &o.stats, o.snapshots, o.nontrivial, &o.samples);
+        }
+        "c12" => {
+            let mut o = valrun::Out::new();
+            let mut r = rng::Rng::new(seed);
+            valrun::run(&mut r, n, &out, &mut o);
+            write_lines(&format!("{}/cases.txt", out), &o.cases);
+            write_lines(&format!("{}/impl.txt", out), &o.imp);
+            write_lines(&format!("{}/oracle.txt", out), &o.oracle);
+            write_stats(&format!("{}/stats.json", out), &o.stats, o.evaluations, o.nontrivial, &o.samples);
         }
         "db" => {
             let opts = dbrun::Opts {
